@@ -86,6 +86,40 @@ def kverif(args, timeout=3600, env_extra=None):
     return p.stdout
 
 
+def kverif_restartable(driver, cases_path, out_path, extra=None, timeout=3600):
+    """Run a driver that exits with status 3 after recording a hung case: restart it behind that case until all cases ran."""
+    ncases = sum(1 for l in open(cases_path) if l.strip())
+    skip, parts = 0, []
+    while skip < ncases:
+        part = f"{out_path}.r{len(parts)}"
+        env = dict(os.environ)
+        env.setdefault("RUST_BACKTRACE", "0")
+        p = subprocess.run([KVERIF, driver, "--cases", cases_path, "--out", part, "--skip", str(skip)] + [str(x) for x in (extra or [])],
+                           stdout=subprocess.PIPE, stderr=subprocess.STDOUT, text=True, timeout=timeout, env=env)
+        parts.append(part)
+        if p.returncode == 0:
+            break
+        if p.returncode != 3:
+            sys.stdout.write(p.stdout[-3000:])
+            raise ToolError(f"harness driver failed: kverif {driver} (exit {p.returncode})")
+        done = 0
+        last_run = None
+        for line in open(part):
+            if '"ev":"reset"' in line[:40] or line.startswith('{"case"'):
+                try:
+                    last_run = json.loads(line).get("run", last_run)
+                except ValueError:
+                    pass
+        if last_run is None or last_run <= skip:
+            raise ToolError("driver reported a hang but recorded no case")
+        skip = last_run          # run numbers are 1-based case indices
+    with open(out_path, "w") as out:
+        for part in parts:
+            with open(part) as f:
+                out.write(f.read())
+            os.remove(part)
+
+
 # --------------------------------------------------------------------------- TLC
 
 def _tlc(tla_dir, module, cfg, workers, timeout, env_extra=None, extra=None, tag="tlc", heap=None):
@@ -364,9 +398,9 @@ class Verdict:
     def finish(self):
         for k in self.known:
             n = len(self.known_hits.get(k["id"], []))
-            if n:
-                log(f"KNOWN-FINDING: property={self.prop} {k['id']}: {k['text']} [{n} case(s) this run]")
-            else:
+            # every listed finding is printed on every run; the count says whether this run's exploration hit it
+            log(f"KNOWN-FINDING: property={self.prop} {k['id']}: {k['text']} [{n} case(s) this run]")
+            if not n:
                 self.notes.append(f"known finding {k['id']} was not reproduced in this run")
         if not self.violations:
             return 0
